@@ -167,3 +167,22 @@ Theorem graph_shared_pipelines_readonly : forall roots ro_in c0 ls i j c procs e
   existsb id procs = false /\ fan_cap (new_fan (map node_cap exps)) = false /\ cro (get (st m) c) = true.
 Proof. exact shared_pipelines_readonly_l. Qed.
 Print Assumptions graph_shared_pipelines_readonly.
+
+(* ---- the caller's context --------------------------------------------------------------------------- *)
+(* The schedule may contain LCancel at any position: the context passed to ConsumeX is cancelled or its
+   deadline passes before the fan-out starts, while some consumer is being called (e.g. a slow consumer that
+   fails by running into the caller's deadline), or afterwards.  ALL theorems above already hold for such
+   schedules (they quantify over every [ls]; [ncalls] counts only LCall): every consumer is still invoked.
+   Explicitly: removing the LCancel labels changes nothing but the "context ended" marks in the log — same
+   pending calls, same store, same handles, same calls / writes / outcomes. *)
+Theorem fanout_context_irrelevant : forall caps ro_in c0 ls,
+  same_upto_ctx (run (new_fan caps) ro_in c0 ls)
+                (run (new_fan caps) ro_in c0 (filter (fun l => negb (is_cancel l)) ls)).
+Proof. exact context_irrelevant_l. Qed.
+Print Assumptions fanout_context_irrelevant.
+
+Theorem fanout_calls_ignore_context : forall caps ro_in c0 ls,
+  calls_of (elog (run (new_fan caps) ro_in c0 ls)) =
+  calls_of (elog (run (new_fan caps) ro_in c0 (filter (fun l => negb (is_cancel l)) ls))).
+Proof. exact calls_ignore_cancel_l. Qed.
+Print Assumptions fanout_calls_ignore_context.
